@@ -1,0 +1,13 @@
+//go:build verif
+
+package server
+
+// VerifPersistLocked reports whether the checkpoint mutex is held (TryLock
+// probe; only meaningful while no request is running).
+func (s *Service) VerifPersistLocked() bool {
+	if s.persistMu.TryLock() {
+		s.persistMu.Unlock()
+		return false
+	}
+	return true
+}
